@@ -437,6 +437,24 @@ package derive
 //@ requires forall k int :: 0 <= k && k < len(plugins) ==> plugins[k] != nil
 //@ ghost-on-return: synced = false
 //@ ensures [not-synced] !synced
+// C09: an error of any step (resolving the directory, a plugin's refusal, rewriting a source file) is returned
+//@ local-ghost: stepFailed
+//@ ghost-after-call filepath.Abs: stepFailed = stepFailed || $ret1 != nil
+//@ ghost-after-call derive.pkg.Add: stepFailed = stepFailed || $ret1 != nil
+//@ ghost-after-call os.Stat: stepFailed = stepFailed || $ret1 != nil
+//@ ghost-after-call os.OpenFile: stepFailed = stepFailed || $ret1 != nil
+//@ ghost-after-call format.Node: stepFailed = stepFailed || $ret0 != nil
+//@ ensures [failure-propagates] err == nil ==> !stepFailed
+//@ loop 4: invariant !stepFailed
+//@ loop 5: invariant !stepFailed
+// C09/C01: a call whose argument types could not be determined and whose name a plugin answers to is recorded
+// (generatePackage's success clause no-call-left-behind reads this list)
+//@ local-ghost: undeterminedSeen
+//@ ghost-after-call strings.HasPrefix: undeterminedSeen = undeterminedSeen || $ret0
+//@ ensures [undetermined-calls-recorded] err == nil && undeterminedSeen ==> len(r.undefined) > 0
+//@ loop 4: invariant undeterminedSeen ==> len(pkg.undefined) > 0
+//@ loop 5: invariant undeterminedSeen ==> len(pkg.undefined) > 0
+//@ loop 6: invariant undeterminedSeen ==> len(pkg.undefined) > 0
 // renamedUnsaved: a call site has been renamed in memory and its file has not been written since
 //@ ghost-on-assign ast.CallExpr.Fun: renamedUnsaved = true
 //@ ghost-after-call format.Node: renamedUnsaved = renamedUnsaved && $ret0 != nil
